@@ -288,7 +288,7 @@ func TestBodyRandom(t *testing.T) {
 	}}, vt.N(40000, 500000))
 }
 
-var replayers = vt.Replayer{"body": vt.Decode(checkBody)}
+var replayers = vt.Replayer{"body": vt.Decode(checkBody), "unquotecmd": vt.Decode(checkUnquoteCmd)}
 
 func TestReplay(t *testing.T) { vt.Replay(t, rec, replayers) }
 
